@@ -25,6 +25,7 @@ def imports():
 
 KEYS = {
     'i0': 0, 'i7': 7, 'ineg1': -1, 'ibig': 2 ** 40, 'npint3': np.int64(3),
+    'ihuge': 2 ** 64 + 5,           # an integer that no 64-bit type holds
     's_a': 'a', 's_a_b': 'a b', 's_e': u'\xe9', 's_neg': '-x', 's_mixed': 'a1',
 }
 # expected key after the round trip (integers come back as Python int)
@@ -330,6 +331,11 @@ def table_cases(tier, seed):
                     continue
                 cases.append({'kind': 'table', 'ext': ext, 'rows': [list(r1), list(r2)],
                               'first': first, 'prec': prec})
+    # (2b) long tables: a column that first appears after 1000 / 1001 identical rows
+    for ext in ('tsv', 'csv'):
+        for rep in (1000, 1001):
+            cases.append({'kind': 'table', 'ext': ext, 'rows': [['i3', 'f1_25', 'absent'], ['i0', 'absent', 's_q']],
+                          'repeat_first': rep, 'first': [None, 'cluster_id'][rep % 2], 'prec': 4})
     # (3) three rows, tiny alphabet (thorough)
     if tier == 'thorough':
         tiny = ['absent', 'i3', 's_comma']
@@ -351,7 +357,10 @@ def table_cases(tier, seed):
 def run_table(case, acc, order):
     from phylib.utils._misc import write_tsv, read_tsv
     rows = []
-    for r in case['rows']:
+    crows = case['rows']
+    if case.get('repeat_first'):
+        crows = [crows[0]] * case['repeat_first'] + list(crows[1:])
+    for r in crows:
         row = {}
         for f, c in zip(FIELDS, r):
             if c != 'absent':
@@ -397,7 +406,7 @@ def run_table(case, acc, order):
         # which cell kind is responsible?
         bad = 'rows'
         if isinstance(back, list) and len(back) == len(expected):
-            for b, e, r in zip(back, expected, case['rows']):
+            for b, e, r in zip(back, expected, crows):
                 for f, c in zip(FIELDS, r):
                     if not deep_equal(b.get(f, None) if isinstance(b, dict) else None,
                                       e.get(f, None)):
@@ -406,6 +415,8 @@ def run_table(case, acc, order):
                 if bad != 'rows':
                     break
         sig = '%s/table/%s/%s/value' % (PROP, case['ext'], bad)
+        if len(expected) > 20:
+            expected, back = expected[-3:], (back[-3:] if isinstance(back, list) else back)
     elif case['first'] in fields:
         delim = '\t' if case['ext'] == 'tsv' else ','
         if header.split(delim)[0] != case['first']:
